@@ -9,6 +9,7 @@ package c09
 
 import (
 	"bytes"
+	stdjson "encoding/json"
 	"fmt"
 	"os"
 	"reflect"
@@ -277,6 +278,41 @@ func opsFor(prefix string, t reflect.Type, v reflect.Value, bigMap map[string]an
 			b, _ := json.Marshal(val)
 			return tokens(b)
 		}),
+		// keys spelled differently from the field names, and keys no field has: the
+		// case-insensitive and the unknown-key paths of the decoder
+		guard("json.Unmarshal(other-case keys)", func() uint64 {
+			b := otherCaseDoc(val)
+			if b == nil {
+				return 7
+			}
+			out := reflect.New(t)
+			err := json.Unmarshal(b, out.Interface())
+			b2, _ := json.Marshal(out.Interface())
+			return hashRes(b2, err)
+		}),
+		// a document that ends inside nested scopes, then a complete one: what the first
+		// leaves behind must not reach the second (whoever runs it)
+		guard("json.Tokenizer(truncated, then whole)", func() uint64 {
+			b, err := json.Marshal(val)
+			if err != nil || len(b) < 4 {
+				return 7
+			}
+			h := tokens(b[:len(b)*2/3])
+			tk := json.NewTokenizer(b)
+			n, maxDepth := 0, 0
+			for tk.Next() {
+				n++
+				if tk.Depth > maxDepth {
+					maxDepth = tk.Depth
+				}
+				h = core.Mix(h, core.HashBytes(tk.Value))
+				h = core.Mix(h, uint64(tk.Depth)<<8|uint64(len(tk.Value)&0xff))
+			}
+			if tk.Err != nil {
+				noteInvariant(fmt.Sprintf("the Tokenizer fails on a document json.Marshal produced (after another Tokenizer was abandoned inside nested scopes): %v; document %s", tk.Err, clip(string(b), 200)))
+			}
+			return core.Mix(h, uint64(n)<<16|uint64(maxDepth))
+		}),
 		guard("json.Marshal(map)", func() uint64 { return hashRes(json.Marshal(bigMap)) }),
 		guard("proto.Marshal", func() uint64 { return hashRes(proto.Marshal(val)) }),
 		guard("proto.Size", func() uint64 { return uint64(proto.Size(val)) }),
@@ -323,6 +359,66 @@ func opsFor(prefix string, t reflect.Type, v reflect.Value, bigMap map[string]an
 			return hashRes(b2, err)
 		}),
 	}
+}
+
+// otherCaseDoc renders v with the reference implementation and rewrites every object key to upper
+// case (every third one to a key no field has).
+func otherCaseDoc(v any) []byte {
+	b, err := stdjson.Marshal(v)
+	if err != nil {
+		return nil
+	}
+	dec := stdjson.NewDecoder(bytes.NewReader(b))
+	dec.UseNumber()
+	var doc any
+	if dec.Decode(&doc) != nil {
+		return nil
+	}
+	n := 0
+	var walk func(x any) any
+	walk = func(x any) any {
+		switch y := x.(type) {
+		case map[string]any:
+			keys := make([]string, 0, len(y))
+			for k := range y {
+				keys = append(keys, k)
+			}
+			sort.Strings(keys)
+			out := make(map[string]any, len(y))
+			for _, k := range keys {
+				n++
+				nk := strings.ToUpper(k)
+				if n%3 == 0 {
+					nk = "no_such_" + k
+				}
+				out[nk] = walk(y[k])
+			}
+			return out
+		case []any:
+			for i := range y {
+				y[i] = walk(y[i])
+			}
+		}
+		return x
+	}
+	out, err := stdjson.Marshal(walk(doc))
+	if err != nil {
+		return nil
+	}
+	return out
+}
+
+var (
+	invMu sync.Mutex
+	inv   []string
+)
+
+func noteInvariant(msg string) {
+	invMu.Lock()
+	if len(inv) < 10 {
+		inv = append(inv, msg)
+	}
+	invMu.Unlock()
 }
 
 var installOnce sync.Once
@@ -461,6 +557,12 @@ func runCase(c *core.Case) {
 	for _, v := range viol {
 		c.Violation("pool-ownership", "object-held-twice", v, w)
 	}
+	invMu.Lock()
+	for _, v := range inv {
+		c.Violation("concurrent|json.Tokenizer", "state-of-another-tokenizer", v, w)
+	}
+	inv = nil
+	invMu.Unlock()
 	c.Count("calls", (G+1)*len(ops))
 	c.Count("goroutines", G)
 	c.Count("cache.overlapping-constructions", overlap)
@@ -670,7 +772,7 @@ func sameShared(a, b *Shared) bool {
 func init() {
 	core.Register(&core.Monitor{
 		Prop:    "C09",
-		Rule:    "first-use: per case 3-6 types the process has never seen (reflect.StructOf types whose first field name carries seed, case and type number; both halves of one of 240 declared mutually recursive type pairs, the second reached from the first through a map value and used on its own as well) with json, protobuf and thrift tags, one value each, and 15 calls per type (json.Marshal by value and pointer, MarshalIndent, Encoder, Unmarshal, Tokenizer, Marshal of a map[string]any; proto.Marshal, Size, Unmarshal, TypeOf; thrift.Marshal and Unmarshal in both protocols). 2-32 goroutines, released together under GOMAXPROCS 2-16, each run all calls in their own order; the verif hooks yield 0-15 times at every codec-cache miss and store. Checked: every goroutine gets the same result for every call, and the identical proto.Type object; a sequential round afterwards gets it too; the digest of the results equals the digest of the same case run by one goroutine in a separate GOMAXPROCS=1 process (supervisor); the race detector reports nothing (race build, log scanned by the supervisor); the pool hooks never see a pooled object handed out while held or returned while not held. shared: 16 goroutines x 60 iterations of json/proto/thrift round trips of per-goroutine values of one shared type (maps with up to 12 entries). Evidence counts calls, hook events per pool and cache, overlapping constructions of one type, and distinct cache-event orders.",
+		Rule:    "first-use: per case 3-6 types the process has never seen (reflect.StructOf types whose first field name carries seed, case and type number; both halves of one of 240 declared mutually recursive type pairs, the second reached from the first through a map value and used on its own as well) with json, protobuf and thrift tags, one value each, and 17 calls per type (json.Marshal by value and pointer, MarshalIndent, Encoder, Unmarshal, Unmarshal of the document with its keys in another case or unknown, Tokenizer, a Tokenizer abandoned inside nested scopes followed by one over the whole document, Marshal of a map[string]any; proto.Marshal, Size, Unmarshal, TypeOf; thrift.Marshal and Unmarshal in both protocols). 2-32 goroutines, released together under GOMAXPROCS 2-16, each run all calls in their own order; the verif hooks yield 0-15 times at every codec-cache miss and store. Checked: every goroutine gets the same result for every call, and the identical proto.Type object; a sequential round afterwards gets it too; the digest of the results equals the digest of the same case run by one goroutine in a separate GOMAXPROCS=1 process (supervisor); the race detector reports nothing (race build, log scanned by the supervisor); the pool hooks never see a pooled object handed out while held or returned while not held. shared: 16 goroutines x 60 iterations of json/proto/thrift round trips of per-goroutine values of one shared type (maps with up to 12 entries). Evidence counts calls, hook events per pool and cache, overlapping constructions of one type, and distinct cache-event orders.",
 		Trusted: []string{"the Go race detector for the no-data-race clause", "the solo process as the 'running alone' reference", "sync.Pool itself (the hook observes the package's use of it)"},
 		Subs: []core.Sub{
 			{Name: "first-use", N: core.Const(240, 2400), Run: runCase, Serial: true},
